@@ -57,8 +57,8 @@ TRUSTED = ["fake asyncio.Transport and recording token manager (harness/c15_sim.
            "the write buffer before the connection ends, abort() discards it (asyncio's documented WriteTransport contract); "
            "the events compared and judged are the peer's view (bytes that reach it, end of connection)"]
 ASSUMPTIONS = ["bytes are delivered in order and unmodified (TCP); only the segmentation varies",
-               "option delta/length 65804 in *outgoing* messages is out of model (C01's off-by-one in "
-               "_write_extended_field_value)"]
+               "option deltas / lengths above 65804 in *outgoing* messages cannot be encoded (RFC 7252 3.1); their "
+               "refusal is C01's topic and not judged here"]
 
 BODY_BOUNDS = [0, 1, 11, 12, 13, 14, 267, 268, 269, 270, 65803, 65804, 65805, 65806]
 EXT_BOUNDS = [0, 1, 12, 13, 14, 268, 269, 270, 65803, 65804]
@@ -845,8 +845,8 @@ def judge_P(before, after, r, events):
     deltas = [b[0] - a[0] for a, b in zip([(0, b"")] + opts, opts)]
     if len(token) > 8:
         return ("", "") if r == "err" else ("message with a %d byte token was sent" % len(token), "tcp-serialize")
-    if any(d >= 65804 for d in deltas) or any(len(v) >= 65804 for _, v in opts):
-        return ("", "")                             # C01's domain (extended field limit)
+    if any(d > 65804 for d in deltas) or any(len(v) > 65804 for _, v in opts):
+        return ("", "")                             # C01's domain (beyond the extended field limit: refused)
     if events is None:
         return ("send_message failed (%s) for %s" % (r, sim.render_fields(*before)), "tcp-send-event")
     return sim.oracle_send(before, after, events)
